@@ -29,7 +29,8 @@ def run(rep, tier, args):
         "the height they store is compared separately",
     ]
     thorough = tier != "quick"
-    mc = rep.model_check("MC_Genesis", "MC_Genesis.cfg", workers=8, coverage=thorough, timeout=3000)
+    mc = rep.model_check("MC_Genesis", "MC_Genesis_thorough.cfg" if thorough else "MC_Genesis.cfg", workers=8,
+                         coverage=thorough, timeout=3000)
     if mc.violated:
         rep.extra["model_violations"] = mc.violated
     md = rep.model_check("MC_Genesis", "MC_Genesis_drop.cfg", workers=4, label="MC_Genesis_drop (result lost before commit)")
